@@ -23,7 +23,8 @@ RULE = (
     "valid generated histories over all 14 transaction types and the three tables (same-instant mixes of earn rows, "
     "disposals and transfers; fee-less, fee-bearing and self transfers) x methods; the taxable set and the fractions of "
     "each run are compared with the input rows by unique row id. Non-trivial = history containing at least one earn row, "
-    "one out row and one transfer; distinct = hash of the history. "
+    "one out row and one transfer; distinct = hash of the history. CLI slice: sheets in which a row is repeated verbatim right below itself "
+    "(every cell, unique id and notes included: two transactions, both taxed). "
     "The repository's own example inputs (input/*.ods read independently of RP2's parser, every method and the config's schedule, -n) are part of the workload"
 )
 ASSUMPTIONS = [
@@ -32,8 +33,8 @@ ASSUMPTIONS = [
 ]
 ALL_TYPES = sorted(set(ALL_IN_TYPES) | {f"OUT:{t}" for t in OUT_TYPES} | {"MOVE:fee", "MOVE:no-fee", "MOVE:self"})
 SETTINGS: Dict[str, Dict[str, Any]] = {
-    "quick": {"cases": 3000, "cli_cases": 64, "budget_s": 45, "minimums": {"corpus_runs": 100, "window_runs": 1000, "events_checked": 8000, "nontrivial": 500, "cli_runs": 6}, "required_tags": {"tag_types": ALL_TYPES}},
-    "thorough": {"cases": 100000, "cli_cases": 200, "budget_s": 300, "minimums": {"corpus_runs": 100, "events_checked": 300000, "nontrivial": 20000, "cli_runs": 100}, "required_tags": {"tag_types": ALL_TYPES}},
+    "quick": {"cases": 3000, "cli_cases": 64, "budget_s": 45, "minimums": {"corpus_runs": 100, "window_runs": 1000, "events_checked": 8000, "nontrivial": 500, "cli_runs": 6, "cli_sheets_with_a_row_repeated_verbatim": 8}, "required_tags": {"tag_types": ALL_TYPES}},
+    "thorough": {"cases": 100000, "cli_cases": 200, "budget_s": 300, "minimums": {"corpus_runs": 100, "events_checked": 300000, "nontrivial": 20000, "cli_runs": 100, "cli_sheets_with_a_row_repeated_verbatim": 20}, "required_tags": {"tag_types": ALL_TYPES}},
 }
 
 PROFILES = [
